@@ -173,3 +173,86 @@ for c, n in (('kex', 'foo-kex@example.com'), ('key', 'ssh-foo'), ('enc', 'bar-ci
         fail({'category': c, 'name': n}, {'json': j}, 'flagged as unknown', 'unknown-json')
 print(json.dumps({'cases': cases, 'failures': failures}))
 '''
+
+C15 = COMMON + r'''
+import hashlib, subprocess, os
+RANK = {'info': 0, 'warn': 1, 'fail': 2}
+def findings_set(text):
+    return sorted(set((c, n, lvl, note) for c, n, lvl, note in H.text_findings(text) if lvl is not None))
+def json_findings(doc):
+    out = []
+    for c in ('kex', 'key', 'enc', 'mac'):
+        for e in doc[c]:
+            for lvl, notes in e['notes'].items():
+                for note in notes:
+                    out.append((c, e['algorithm'], lvl, note))
+    return sorted(set(out))
+digest = hashlib.sha256()
+sel = peers()
+sel = sel[:4] + sel[-3:]
+for pi, p in enumerate(sel):
+    def run(**kw):
+        kex = H.make_kex(p['kex'], p['key'], p['enc'], p['mac'])
+        return H.run_output(kex=kex, **kw)
+    cases += 1
+    base_status, base_text = run()
+    base = findings_set(base_text)
+    digest.update(base_text.encode())
+    inp = {'peer': pi}
+    for name, kw in (('batch', dict(batch=True)), ('verbose', dict(verbose=True)), ('colors', dict(colors=True)), ('batch+verbose', dict(batch=True, verbose=True))):
+        cases += 1
+        st_, tx = run(**kw)
+        digest.update(tx.encode())
+        if st_ != base_status:
+            fail(dict(inp, options=name), st_, base_status, 'status')
+        if findings_set(tx) != base:
+            a, b = findings_set(tx), base
+            fail(dict(inp, options=name), [x for x in a if x not in b][:3] + [x for x in b if x not in a][:3], 'the same findings as the plain report', 'findings')
+    # JSON: same status; same findings for names the database knows; compact == indented; well-formed
+    cases += 1
+    sj, js = run(json_out=True)
+    sj2, js2 = run(json_out=True, json_indent=True)
+    digest.update(js.encode())
+    try:
+        d1, d2 = json.loads(js), json.loads(js2)
+    except Exception as e:
+        fail(inp, 'not JSON %%r' %% (e,), 'well-formed JSON', 'json'); continue
+    if d1 != d2:
+        fail(inp, 'compact and indented forms differ', 'equal values', 'json-indent')
+    if sj != base_status or sj2 != base_status:
+        fail(inp, [sj, sj2], base_status, 'status-json')
+    known = lambda c, n: (n[:n.rindex('-')] + '-*' if c == 'kex' and n.startswith('gss-') else n) in DB[c]
+    jf = [x for x in json_findings(d1) if known(x[0], x[1]) and not x[3].startswith('available since')]
+    tf = [x for x in base if known(x[0], x[1]) and not x[3].startswith('available since')]
+    if jf != tf:
+        fail(inp, [x for x in jf if x not in tf][:3] + [x for x in tf if x not in jf][:3], 'JSON findings == text findings for known names', 'findings-json')
+    # minimum level: only removes lines, never adds or alters; the status does not change
+    lines0 = [H.ANSI.sub('', l) for l in base_text.split('\n')]
+    for lvl in ('warn', 'fail'):
+        for extra in (dict(), dict(batch=True), dict(verbose=True)):
+            cases += 1
+            s0, t0 = run(**extra)
+            sl, tl = run(level=lvl, **extra)
+            if sl != base_status:
+                fail(dict(inp, level=lvl, options=extra), sl, base_status, 'status-level')
+            l0 = [H.ANSI.sub('', l) for l in t0.split('\n')]
+            ll = [H.ANSI.sub('', l) for l in tl.split('\n')]
+            it = iter(l0)
+            if not all(any(x == y for y in it) for x in ll):
+                fail(dict(inp, level=lvl, options=extra), [x for x in ll if x not in l0][:3], 'a subsequence of the lines at level info', 'level-adds')
+            f0 = [x for x in findings_set(t0) if RANK[x[2]] >= RANK[lvl]]
+            fl = findings_set(tl)
+            # first-line logic: a hidden first line moves the name to the next shown line; compare (cat, name, level, note) sets
+            if [x for x in fl if x not in findings_set(t0)]:
+                fail(dict(inp, level=lvl, options=extra), [x for x in fl if x not in findings_set(t0)][:3], 'no new findings', 'level-alters')
+# byte-identical repeated audits, including under different hash seeds
+cases += 1
+code = "import sys; sys.path.insert(0, %%r); import harness as H, hashlib; h = hashlib.sha256();\nfor p in %%r:\n    k = H.make_kex(p['kex'], p['key'], p['enc'], p['mac']); h.update(H.run_output(kex=k)[1].encode()); k = H.make_kex(p['kex'], p['key'], p['enc'], p['mac']); h.update(H.run_output(kex=k, json_out=True)[1].encode())\nprint(h.hexdigest())" %% (%(native)r, sel[:3])
+outs = set()
+for seed in ('0', '1', '12345', 'random'):
+    env = dict(os.environ, PYTHONHASHSEED=seed)
+    outs.add(subprocess.run([sys.executable, '-c', code], capture_output=True, text=True, env=env).stdout.strip())
+if len(outs) != 1 or '' in outs:
+    fail({'hash seeds': ['0', '1', '12345', 'random']}, sorted(outs), 'one digest', 'hashseed')
+print(json.dumps({'cases': cases, 'failures': failures}))
+'''
